@@ -19,6 +19,8 @@ StepSGR(s, ps) == [s EXCEPT !.pen = Apply(s.pen, ps), !.wf = s.wf /\ WellFormed(
 RECURSIVE StepSGRs(_, _, _)         \* several control sequences written back to back
 StepSGRs(s, seqs, i) == IF i > Len(seqs) THEN s ELSE StepSGRs(StepSGR(s, seqs[i]), seqs, i + 1)
 StepG(s, g)    == [s EXCEPT !.cells = Append(s.cells, CellOf(g, s.pen))]
+(* A run of graphemes: every one takes the pen in force. *)
+StepGs(s, gs)  == [s EXCEPT !.cells = s.cells \o [i \in 1..Len(gs) |-> CellOf(gs[i], s.pen)]]
 
 (* First position where two cell sequences differ (0 = equal) and the      *)
 (* names of the differing fields there.                                     *)
